@@ -317,11 +317,22 @@ func (p *parser) parsePrecList(Tklist *[]TokenDef) []PrecDef {
 			// make loop get id or alias
 			IdName = p.current.Value
 			idvalue := 0
+			numbered := false
 			if p.current.Is(Charater) {
 				IdName = genTempName(IdName)
 				idvalue = int(p.current.Value[0])
+			} else {
+				// a token number may follow the name, as on a %token line
+				p.next()
+				if p.current.Is(Number) {
+					if n, err := strconv.Atoi(p.current.Value); err == nil {
+						idvalue, numbered = n, true
+					}
+				} else {
+					p.backup()
+				}
 			}
-			if !p.TokenDefMap[IdName] {
+			if !p.TokenDefMap[IdName] || numbered {
 				id := Idendity{
 					Tag: Tag,
 					// noname need do for sepical.
